@@ -229,7 +229,10 @@ func genStreamsPlan(tp *simrt.Tape, seed uint64, tier string) any {
 	if tier == "thorough" {
 		n += tp.Draw(30)
 	}
-	wts := []int{8, 6, 5, 2, 3, 2, 2, 1, 1, 2, 1, 1, 3, 1, 2, 1, 1, 1, 3, 4, 1, 0}
+	wts := []int{8, 6, 5, 2, 3, 2, 2, 1, 1, 2, 1, 1, 3, 1, 2, 1, 1, 1, 3, 4, 1, 0, 0}
+	if ng > 1 {
+		wts[22] = 2
+	}
 	if !p.Faults {
 		wts[13], wts[14], wts[15] = 0, 0, 0
 	}
@@ -239,6 +242,21 @@ func genStreamsPlan(tp *simrt.Tape, seed uint64, tier string) any {
 	acts := []string{"unpresent", "present", "unpresent", "unop", "op"}
 	for k := 0; k < n; k++ {
 		switch tp.Weighted(wts...) {
+		case 22:
+			// a member asks for the streams of its group again and changes
+			// group straight away: what the publishers push in answer is
+			// still queued for it when it is a member of the other group
+			c := pickClient(func(i int) bool { return i != 0 && member(i) })
+			other := p.Groups[0].Name
+			if joined[c] == other {
+				other = p.Groups[1].Name
+			}
+			request(c)
+			add(confOp{Kind: "leave", C: c})
+			u := users[2+tp.Draw(2)]
+			add(confOp{Kind: "join", C: c, Group: other, User: u.Name, Pass: u.Pass})
+			joined[c], canPresent[c] = other, true
+			request(c)
 		case 0:
 			publish(pickClient(func(i int) bool { return member(i) && canPresent[i] }), "")
 		case 1:
